@@ -1,10 +1,12 @@
 import ImathVerif.Spec.GeoSpec
 import ImathVerif.Lemmas.C15Lemmas
+import ImathVerif.Lemmas.C15LengthSpec
 import ImathVerif.Gen.C15Line
 import ImathVerif.Gen.C15Plane
 import ImathVerif.Gen.C15PlaneMul
 import ImathVerif.Gen.C15Sphere
 import ImathVerif.Gen.C15Algo
+import Mathlib.Tactic.Tauto
 /-!
 # C15 — line, plane, sphere and triangle primitives satisfy their geometric definitions
 
@@ -252,39 +254,126 @@ theorem LineAlgo_closestPoints_no_div_by_zero (tmax : α) (l1 l2 : Line3 α) :
 
 /-! ## Line3::distanceTo(Line3) -/
 
+/-- `Line3::distanceTo(Line3)` with whatever parameters the current extraction gives it (the present body uses no
+`length()`, a repaired one does): the statement below elaborates against either -/
 def Line3_distanceToLine_impl (tmin : α) (sqrt : α → α) (l1 l2 : Line3 α) : α := by
   first
     | exact Gen.Line3.distanceToLine tmin sqrt l1 l2
     | exact Gen.Line3.distanceToLine sqrt l1 l2
     | exact Gen.Line3.distanceToLine l1 l2
 
+/-- `Line3::distanceTo(Line3)`, FULL STRENGTH (unit directions): the result is the distance between the lines, i.e. it is
+non-negative, no pair of points of the two lines is closer, and some pair realises it (the common perpendicular; for
+parallel lines the distance of `l2.pos` to `l1`); for non-parallel lines it equals
+`|(p2 − p1)·(d1×d2)| / |d1×d2|`.
+
+On the tree this file was written against the statement is FALSE (DESIGN.md §7 item 2: the cross product is not
+normalised, so the code returns `|(p2 − p1)·(d1×d2)|`, which is the distance times `|d1×d2| = sin(angle)`, and `0` for
+parallel lines); the proof below is the one that closes once the code divides by `|d1×d2|` and falls back to the
+point–line distance for parallel lines.  What IS true of the current code is `Line3_distanceToLine_partial`. -/
+theorem Line3_distanceToLine (tmin : α) (sqrt : α → α) (hlen : LenSpec (Gen.V3.length tmin sqrt)) (l1 l2 : Line3 α)
+    (hu1 : dot l1.dir l1.dir = 1) (hu2 : dot l2.dir l2.dir = 1) :
+    0 ≤ Line3_distanceToLine_impl tmin sqrt l1 l2 ∧
+    (∀ s t, Line3_distanceToLine_impl tmin sqrt l1 l2 ^ 2 ≤ dist2 (lineAt l1 s) (lineAt l2 t)) ∧
+    (∃ s t, Line3_distanceToLine_impl tmin sqrt l1 l2 ^ 2 = dist2 (lineAt l1 s) (lineAt l2 t)) ∧
+    (cross l1.dir l2.dir ≠ zero → ∀ Lc, 0 ≤ Lc → Lc ^ 2 = dot (cross l1.dir l2.dir) (cross l1.dir l2.dir) →
+      Line3_distanceToLine_impl tmin sqrt l1 l2 * Lc = |dot (sub l2.pos l1.pos) (cross l1.dir l2.dir)|) := by
+  -- it is enough to exhibit feet of a common perpendicular whose squared distance is D²
+  suffices h : 0 ≤ Line3_distanceToLine_impl tmin sqrt l1 l2 ∧
+      (∃ s t, dot (sub (lineAt l1 s) (lineAt l2 t)) l1.dir = 0 ∧ dot (sub (lineAt l1 s) (lineAt l2 t)) l2.dir = 0 ∧
+        Line3_distanceToLine_impl tmin sqrt l1 l2 ^ 2 = dist2 (lineAt l1 s) (lineAt l2 t)) by
+    obtain ⟨h0, s, t, hp1, hp2, hD⟩ := h
+    refine ⟨h0, fun s' t' => by rw [hD]; exact dist2_min_of_perp l1 l2 s t hp1 hp2 s' t', ⟨s, t, hD⟩, ?_⟩
+    intro hnp Lc hLc0 hLc
+    have hV := perp_both_sq (sub (lineAt l1 s) (lineAt l2 t)) l1.dir l2.dir hp1 hp2
+    have hVn : dot (sub (lineAt l1 s) (lineAt l2 t)) (cross l1.dir l2.dir) = - dot (sub l2.pos l1.pos) (cross l1.dir l2.dir) := by
+      simp only [dot, sub, lineAt, cross]; ring
+    have hsq : (Line3_distanceToLine_impl tmin sqrt l1 l2 * Lc) ^ 2 = |dot (sub l2.pos l1.pos) (cross l1.dir l2.dir)| ^ 2 := by
+      rw [mul_pow, hD, hLc, sq_abs]
+      have : dist2 (lineAt l1 s) (lineAt l2 t) = dot (sub (lineAt l1 s) (lineAt l2 t)) (sub (lineAt l1 s) (lineAt l2 t)) := rfl
+      rw [this, hV, hVn]; ring
+    exact (pow_left_inj₀ (mul_nonneg h0 hLc0) (abs_nonneg _) two_ne_zero).mp hsq
+  unfold Line3_distanceToLine_impl
+  simp only [Gen.Line3.distanceToLine]
+  len_intro hlen L hsq hnn
+  have hcross : dot (cross l1.dir l2.dir) (cross l1.dir l2.dir) = L ^ 2 := by rw [hsq]; simp only [dot, cross]
+  by_cases hL : L = 0
+  · -- parallel lines: distance of `l2.pos` to `l1`
+    rw [if_pos hL]
+    len_intro hlen L' hsq' hnn'
+    have hpar : dot l1.dir l2.dir ^ 2 = 1 := by
+      have := lagrange l1.dir l2.dir
+      rw [hcross, hL, hu1, hu2] at this; linear_combination this
+    have hd2 := unit_parallel_eq l1.dir l2.dir hu1 hu2 hpar
+    have hp1 : dot (sub (lineAt l1 (dot (sub l2.pos l1.pos) l1.dir)) (lineAt l2 0)) l1.dir = 0 := by
+      simp only [dot, sub, lineAt] at hu1 ⊢
+      linear_combination ((l2.pos.x - l1.pos.x) * l1.dir.x + (l2.pos.y - l1.pos.y) * l1.dir.y + (l2.pos.z - l1.pos.z) * l1.dir.z) * hu1
+    have hp2 : dot (sub (lineAt l1 (dot (sub l2.pos l1.pos) l1.dir)) (lineAt l2 0)) l2.dir = 0 := by
+      rw [hd2]
+      have : ∀ v : V3 α, dot v (smul (dot l1.dir l2.dir) l1.dir) = dot l1.dir l2.dir * dot v l1.dir := by
+        intro v; simp only [dot, smul]; ring
+      rw [this, hp1, mul_zero]
+    refine ⟨hnn', _, 0, hp1, hp2, ?_⟩
+    rw [hsq']; simp only [dist2, dot, sub, lineAt]; ring
+  · -- skew or intersecting lines: |w·(d1×d2)| / |d1×d2|
+    rw [if_neg hL]
+    have hLpos : 0 < L := lt_of_le_of_ne hnn (Ne.symm hL)
+    have hden : cpDen l1 l2 ≠ 0 := by
+      rw [cpDen_eq l1 l2 hu1 hu2, hcross]; exact pow_ne_zero 2 hL
+    obtain ⟨hp1, hp2⟩ := cp_perp l1 l2 hu1 hu2 hden
+    have hV := perp_both_sq _ l1.dir l2.dir hp1 hp2
+    constructor
+    · split_ifs with h
+      · exact h
+      · linarith
+    · refine ⟨_, _, hp1, hp2, ?_⟩
+      have hDsq : ∀ x : α, (if 0 ≤ x then x else -x) ^ 2 = x ^ 2 := by
+        intro x; split_ifs <;> ring
+      rw [hDsq]
+      have hVn : dot (sub (lineAt l1 (cpNum1 l1 l2 / cpDen l1 l2)) (lineAt l2 (cpNum2 l1 l2 / cpDen l1 l2))) (cross l1.dir l2.dir)
+          = -((l1.dir.y * l2.dir.z - l1.dir.z * l2.dir.y) * (l2.pos.x - l1.pos.x) + (l1.dir.z * l2.dir.x - l1.dir.x * l2.dir.z) * (l2.pos.y - l1.pos.y)
+              + (l1.dir.x * l2.dir.y - l1.dir.y * l2.dir.x) * (l2.pos.z - l1.pos.z)) := by
+        simp only [dot, sub, lineAt, cross]; ring
+      rw [hcross, hVn] at hV
+      rw [div_pow, div_eq_iff (pow_ne_zero 2 hL)]
+      unfold dist2
+      rw [hV]; ring
+
+/-- what holds on BOTH the current and a repaired tree: for PERPENDICULAR unit directions (`|d1×d2| = 1`) the result is the
+distance between the lines.  (Full statement: `Line3_distanceToLine`; missing here: every non-perpendicular pair.) -/
 theorem Line3_distanceToLine_partial (tmin : α) (sqrt : α → α) (hlen : LenSpec (Gen.V3.length tmin sqrt)) (l1 l2 : Line3 α)
     (hu1 : dot l1.dir l1.dir = 1) (hu2 : dot l2.dir l2.dir = 1) (hperp : dot l1.dir l2.dir = 0) :
     0 ≤ Line3_distanceToLine_impl tmin sqrt l1 l2 ∧
     (∀ s t, Line3_distanceToLine_impl tmin sqrt l1 l2 ^ 2 ≤ dist2 (lineAt l1 s) (lineAt l2 t)) ∧
     (∃ s t, Line3_distanceToLine_impl tmin sqrt l1 l2 ^ 2 = dist2 (lineAt l1 s) (lineAt l2 t)) := by
-  have hden : cpDen l1 l2 ≠ 0 := by unfold cpDen; rw [hperp]; norm_num
-  obtain ⟨hp1, hp2⟩ := cp_perp l1 l2 hu1 hu2 hden
-  have hV := perp_both_sq _ l1.dir l2.dir hp1 hp2
-  have hn : dot (cross l1.dir l2.dir) (cross l1.dir l2.dir) = 1 := by rw [lagrange, hu1, hu2, hperp]; ring
-  have hDsq : ∀ x : α, (if 0 ≤ x then x else -x) ^ 2 = x ^ 2 := by
-    intro x; split_ifs <;> ring
-  have hVn : dot (sub (lineAt l1 (cpNum1 l1 l2 / cpDen l1 l2)) (lineAt l2 (cpNum2 l1 l2 / cpDen l1 l2))) (cross l1.dir l2.dir)
-      = -((l1.dir.y * l2.dir.z - l1.dir.z * l2.dir.y) * (l2.pos.x - l1.pos.x) + (l1.dir.z * l2.dir.x - l1.dir.x * l2.dir.z) * (l2.pos.y - l1.pos.y)
-          + (l1.dir.x * l2.dir.y - l1.dir.y * l2.dir.x) * (l2.pos.z - l1.pos.z)) := by
-    simp only [dot, sub, lineAt, cross]; ring
-  rw [hn, hVn, mul_one] at hV
-  have hD : Line3_distanceToLine_impl tmin sqrt l1 l2 ^ 2
-      = dist2 (lineAt l1 (cpNum1 l1 l2 / cpDen l1 l2)) (lineAt l2 (cpNum2 l1 l2 / cpDen l1 l2)) := by
-    unfold Line3_distanceToLine_impl dist2
-    simp only [Gen.Line3.distanceToLine]
-    rw [hDsq, hV]; ring
-  refine ⟨?_, fun s t => by rw [hD]; exact dist2_min_of_perp l1 l2 _ _ hp1 hp2 s t, ⟨_, _, hD⟩⟩
-  unfold Line3_distanceToLine_impl
-  simp only [Gen.Line3.distanceToLine]
-  split_ifs with h
-  · exact h
-  · linarith
+  first
+  | -- current tree: the code returns |(p2 − p1)·(d1×d2)|
+    (
+      have hden : cpDen l1 l2 ≠ 0 := by unfold cpDen; rw [hperp]; norm_num
+      obtain ⟨hp1, hp2⟩ := cp_perp l1 l2 hu1 hu2 hden
+      have hV := perp_both_sq _ l1.dir l2.dir hp1 hp2
+      have hn : dot (cross l1.dir l2.dir) (cross l1.dir l2.dir) = 1 := by rw [lagrange, hu1, hu2, hperp]; ring
+      have hDsq : ∀ x : α, (if 0 ≤ x then x else -x) ^ 2 = x ^ 2 := by
+        intro x; split_ifs <;> ring
+      have hVn : dot (sub (lineAt l1 (cpNum1 l1 l2 / cpDen l1 l2)) (lineAt l2 (cpNum2 l1 l2 / cpDen l1 l2))) (cross l1.dir l2.dir)
+          = -((l1.dir.y * l2.dir.z - l1.dir.z * l2.dir.y) * (l2.pos.x - l1.pos.x) + (l1.dir.z * l2.dir.x - l1.dir.x * l2.dir.z) * (l2.pos.y - l1.pos.y)
+              + (l1.dir.x * l2.dir.y - l1.dir.y * l2.dir.x) * (l2.pos.z - l1.pos.z)) := by
+        simp only [dot, sub, lineAt, cross]; ring
+      rw [hn, hVn, mul_one] at hV
+      have hD : Line3_distanceToLine_impl tmin sqrt l1 l2 ^ 2
+          = dist2 (lineAt l1 (cpNum1 l1 l2 / cpDen l1 l2)) (lineAt l2 (cpNum2 l1 l2 / cpDen l1 l2)) := by
+        unfold Line3_distanceToLine_impl dist2
+        simp only [Gen.Line3.distanceToLine]
+        rw [hDsq, hV]; ring
+      refine ⟨?_, fun s t => by rw [hD]; exact dist2_min_of_perp l1 l2 _ _ hp1 hp2 s t, ⟨_, _, hD⟩⟩
+      unfold Line3_distanceToLine_impl
+      simp only [Gen.Line3.distanceToLine]
+      split_ifs with h
+      · exact h
+      · linarith)
+  | -- repaired tree: a special case of the full theorem
+    (obtain ⟨h0, hmin, hex, _⟩ := Line3_distanceToLine tmin sqrt hlen l1 l2 hu1 hu2
+     exact ⟨h0, hmin, hex⟩)
 
 /-! ## Plane3 -/
 
@@ -579,5 +668,772 @@ theorem Plane3_mulM44_sides (tmin : α) (sqrt : α → α) (hlen : LenSpec (Gen.
 /-! `Plane3_mulM44` covers non-singular AFFINE matrices with `m[3][3] = 1`.  Missing (would be `_partial` items of the
 full property): projective matrices (the `Vec3 * Matrix44` homogeneous divide is in the model, `Plane3_mulM44_cases`
 holds for every `M`, but the incidence statement for a projective map is not proved) and singular matrices. -/
+
+/-! ## Sphere3 -/
+
+/-- the quadratic `|pos + t·dir − c|² − r²` for a unit direction is `t² + B t + C` -/
+theorem sphere_quadratic (s : Sphere3 α) (l : Line3 α) (hu : dot l.dir l.dir = 1) (t : α) :
+    dist2 (lineAt l t) s.center - s.radius * s.radius
+      = t ^ 2 + (2 * dot l.dir (sub l.pos s.center)) * t + (dot (sub l.pos s.center) (sub l.pos s.center) - s.radius * s.radius) := by
+  simp only [dist2, dot, sub, lineAt] at hu ⊢
+  linear_combination (t ^ 2) * hu
+
+/-- `Sphere3::intersectT` (unit direction): `true` with the SMALLEST non-negative parameter whose point is on the
+sphere; `false` exactly when no non-negative parameter gives a point of the sphere -/
+theorem Sphere3_intersectT (sqrt : α → α) (hsqrt : SqrtSpec sqrt) (s : Sphere3 α) (l : Line3 α) (hu : dot l.dir l.dir = 1) :
+    ((Gen.Sphere3.intersectT sqrt s l).1 = true →
+      0 ≤ (Gen.Sphere3.intersectT sqrt s l).2 ∧ OnSphere s (lineAt l (Gen.Sphere3.intersectT sqrt s l).2) ∧
+      ∀ t, 0 ≤ t → OnSphere s (lineAt l t) → (Gen.Sphere3.intersectT sqrt s l).2 ≤ t) ∧
+    ((Gen.Sphere3.intersectT sqrt s l).1 = false → ∀ t, 0 ≤ t → ¬ OnSphere s (lineAt l t)) := by
+  -- on-sphere ⇔ root of the quadratic
+  have hq : ∀ t, OnSphere s (lineAt l t) ↔
+      t ^ 2 + (2 * dot l.dir (sub l.pos s.center)) * t + (dot (sub l.pos s.center) (sub l.pos s.center) - s.radius * s.radius) = 0 := by
+    intro t; unfold OnSphere; rw [← sphere_quadratic s l hu t]; constructor <;> intro h <;> linarith
+  simp only [hq]
+  generalize hB : 2 * dot l.dir (sub l.pos s.center) = B
+  generalize hC : dot (sub l.pos s.center) (sub l.pos s.center) - s.radius * s.radius = C
+  have hBdef : (2 : α) * (l.dir.x * (l.pos.x - s.center.x) + l.dir.y * (l.pos.y - s.center.y) + l.dir.z * (l.pos.z - s.center.z)) = B := by
+    rw [← hB]; simp only [dot, sub]
+  have hCdef : ((l.pos.x - s.center.x) * (l.pos.x - s.center.x) + (l.pos.y - s.center.y) * (l.pos.y - s.center.y)
+      + (l.pos.z - s.center.z) * (l.pos.z - s.center.z)) - s.radius * s.radius = C := by
+    rw [← hC]; simp only [dot, sub]
+  simp only [Gen.Sphere3.intersectT, hBdef, hCdef]
+  -- discriminant and its root
+  by_cases hd : B * B - 4 * C < 0
+  · rw [if_pos hd]
+    refine ⟨fun h => (by cases h), fun _ t _ ht => ?_⟩
+    nlinarith [sq_nonneg (2 * t + B)]
+  · rw [if_neg hd]
+    obtain ⟨hr, hr0⟩ := hsqrt _ (not_lt.mp hd)
+    generalize sqrt (B * B - 4 * C) = r at *
+    -- factorisation t² + B t + C = (t − t0)(t − t1)
+    have hfac : ∀ t, t ^ 2 + B * t + C = (t - (-B - r) * (1 / 2)) * (t - (-B + r) * (1 / 2)) := by
+      intro t; linear_combination ((1 : α) / 4) * hr
+    split_ifs with h0 h1
+    · -- both roots negative
+      refine ⟨fun h => (by cases h), fun _ t ht hroot => ?_⟩
+      rw [hfac] at hroot
+      rcases mul_eq_zero.mp hroot with h | h <;> linarith
+    · -- smaller root negative, larger one non-negative
+      refine ⟨fun _ => ⟨not_lt.mp h1, ?_, fun t ht hroot => ?_⟩, fun h => (by cases h)⟩
+      · rw [hfac]; ring
+      · rw [hfac] at hroot
+        rcases mul_eq_zero.mp hroot with h | h <;> linarith
+    · refine ⟨fun _ => ⟨not_lt.mp h0, ?_, fun t ht hroot => ?_⟩, fun h => (by cases h)⟩
+      · rw [hfac]; ring
+      · rw [hfac] at hroot
+        rcases mul_eq_zero.mp hroot with h | h <;> linarith
+
+
+/-- `Sphere3::intersect`: same verdict as `intersectT`, and the point at that parameter -/
+theorem Sphere3_intersect (sqrt : α → α) (s : Sphere3 α) (l : Line3 α) :
+    (Gen.Sphere3.intersect sqrt s l).1 = (Gen.Sphere3.intersectT sqrt s l).1 ∧
+    ((Gen.Sphere3.intersect sqrt s l).1 = true →
+      (Gen.Sphere3.intersect sqrt s l).2 = lineAt l (Gen.Sphere3.intersectT sqrt s l).2) := by
+  simp only [Gen.Sphere3.intersect, Gen.Sphere3.intersectT, lineAt]
+  split_ifs <;> exact ⟨rfl, fun h => by first | rfl | cases h⟩
+
+/-- `circumscribe(box)`: the centre is the midpoint, the radius the half diagonal; every point of the box (in
+particular every corner) is inside the closed ball, and the corners `min`, `max` are ON the sphere (tight) -/
+theorem Sphere3_circumscribe (tmin : α) (sqrt : α → α) (hlen : LenSpec (Gen.V3.length tmin sqrt)) (b : Box3 α) :
+    (∀ p, InBox b p → InBall (Gen.Sphere3.circumscribe tmin sqrt b) p) ∧
+    OnSphere (Gen.Sphere3.circumscribe tmin sqrt b) b.max ∧ OnSphere (Gen.Sphere3.circumscribe tmin sqrt b) b.min ∧
+    0 ≤ (Gen.Sphere3.circumscribe tmin sqrt b).radius := by
+  simp only [Gen.Sphere3.circumscribe]
+  len_intro hlen R hsq hnn
+  have hR : R * R = R ^ 2 := by ring
+  simp only [InBall, OnSphere, InBox, dist2, dot, sub, hR, hsq]
+  refine ⟨fun p ⟨h1, h2, h3, h4, h5, h6⟩ => ?_, by first | trivial | ring, by first | trivial | ring, hnn⟩
+  have e : ∀ x lo hi : α, lo ≤ x → x ≤ hi → (x - 1 / 2 * (lo + hi)) * (x - 1 / 2 * (lo + hi)) ≤ (hi - 1 / 2 * (lo + hi)) * (hi - 1 / 2 * (lo + hi)) := by
+    intro x lo hi hl hh
+    nlinarith [mul_nonneg (sub_nonneg.mpr hl) (sub_nonneg.mpr hh)]
+  have := e p.x _ _ h1 h2
+  have := e p.y _ _ h3 h4
+  have := e p.z _ _ h5 h6
+  linarith
+
+/-! ## ImathVecAlgo.h: project / orthogonal / reflect / closestVertex -/
+
+/-- `project(s,t)` is the orthogonal projection of `t` onto the direction of `s`: `((s·t)/(s·s))·s`; `0` for `s = 0` -/
+theorem VecAlgo3_project (tmin : α) (sqrt : α → α) (hlen : LenSpec (Gen.V3.length tmin sqrt)) (s t : V3 α) :
+    Gen.VecAlgo3.project tmin sqrt s t = smul (dot s t / dot s s) s := by
+  simp only [Gen.VecAlgo3.project]
+  len_intro hlen L hsq hnn
+  split_ifs with h0
+  · have hs := len_zero hsq h0
+    cases s; simp only [zero, V3.mk.injEq] at hs
+    obtain ⟨h1, h2, h3⟩ := hs
+    simp only [smul, dot, h1, h2, h3, V3.mk.injEq]; refine ⟨?_, ?_, ?_⟩ <;> ring
+  · rw [← hsq]; simp only [smul, dot, V3.mk.injEq]; refine ⟨?_, ?_, ?_⟩ <;> ring
+
+/-- `orthogonal(s,t) = t − project(s,t)`: it is perpendicular to `s`, and `project + orthogonal = t` -/
+theorem VecAlgo3_orthogonal (tmin : α) (sqrt : α → α) (hlen : LenSpec (Gen.V3.length tmin sqrt)) (s t : V3 α) :
+    Gen.VecAlgo3.orthogonal tmin sqrt s t = sub t (Gen.VecAlgo3.project tmin sqrt s t) ∧
+    dot (Gen.VecAlgo3.orthogonal tmin sqrt s t) s = 0 ∧
+    add (Gen.VecAlgo3.project tmin sqrt s t) (Gen.VecAlgo3.orthogonal tmin sqrt s t) = t := by
+  have h1 : Gen.VecAlgo3.orthogonal tmin sqrt s t = sub t (Gen.VecAlgo3.project tmin sqrt s t) := by
+    simp only [Gen.VecAlgo3.orthogonal, Gen.VecAlgo3.project]
+    split_ifs <;> rfl
+  refine ⟨h1, ?_, ?_⟩
+  · rw [h1, VecAlgo3_project tmin sqrt hlen]
+    have key : ∀ k, dot (sub t (smul k s)) s = dot s t - k * dot s s := by
+      intro k; simp only [dot, sub, smul]; ring
+    rw [key]
+    by_cases hs : dot s s = 0
+    · rw [hs]; simp only [div_zero, zero_mul, sub_zero]
+      have := dot_self_eq_zero hs
+      rw [this]; simp only [dot, zero]; ring
+    · field_simp; ring
+  · rw [h1]; cases t; simp only [add, sub, V3.mk.injEq]; refine ⟨?_, ?_, ?_⟩ <;> ring
+
+/-- `reflect(s,t) = 2·project(t,s) − s` (mirror image of `s` in the line along `t`; the component of `s` along `t` is
+kept, the perpendicular one negated).  It preserves length and is an involution -/
+theorem VecAlgo3_reflect (tmin : α) (sqrt : α → α) (hlen : LenSpec (Gen.V3.length tmin sqrt)) (s t : V3 α) :
+    Gen.VecAlgo3.reflect tmin sqrt s t = sub (smul 2 (Gen.VecAlgo3.project tmin sqrt t s)) s ∧
+    dot (Gen.VecAlgo3.reflect tmin sqrt s t) (Gen.VecAlgo3.reflect tmin sqrt s t) = dot s s ∧
+    Gen.VecAlgo3.reflect tmin sqrt (Gen.VecAlgo3.reflect tmin sqrt s t) t = s := by
+  have h1 : ∀ s, Gen.VecAlgo3.reflect tmin sqrt s t = sub (smul 2 (Gen.VecAlgo3.project tmin sqrt t s)) s := by
+    intro s
+    simp only [Gen.VecAlgo3.reflect, Gen.VecAlgo3.project]
+    split_ifs <;> (simp only [sub, smul, V3.mk.injEq]; refine ⟨?_, ?_, ?_⟩ <;> ring)
+  refine ⟨h1 s, ?_, ?_⟩
+  · rw [h1, VecAlgo3_project tmin sqrt hlen]
+    have key : ∀ k, dot (sub (smul 2 (smul k t)) s) (sub (smul 2 (smul k t)) s) = dot s s + 4 * k * (k * dot t t - dot t s) := by
+      intro k; simp only [dot, sub, smul]; ring
+    rw [key]
+    by_cases ht : dot t t = 0
+    · rw [ht]; simp only [div_zero, zero_mul, mul_zero, sub_zero, add_zero]
+    · field_simp; ring
+  · rw [h1, h1, VecAlgo3_project tmin sqrt hlen, VecAlgo3_project tmin sqrt hlen]
+    have key : ∀ k v, dot t (sub (smul 2 (smul k t)) v) = 2 * k * dot t t - dot t v := by
+      intro k v; simp only [dot, sub, smul]; ring
+    rw [key]
+    have key2 : ∀ k k', sub (smul 2 (smul k' t)) (sub (smul 2 (smul k t)) s) = add s (smul (2 * (k' - k)) t) := by
+      intro k k'; simp only [add, sub, smul, V3.mk.injEq]; refine ⟨?_, ?_, ?_⟩ <;> ring
+    rw [key2]
+    have hk : (2 * (dot t s / dot t t) * dot t t - dot t s) / dot t t - dot t s / dot t t = 0 := by
+      by_cases ht : dot t t = 0
+      · rw [ht]; simp only [div_zero, sub_self]
+      · field_simp; ring
+    rw [hk]; cases s; simp only [add, smul, mul_zero, zero_mul, add_zero]
+
+/-- `closestVertex(v0,v1,v2,p)`: one of the three vertices, and none of them is nearer to `p` -/
+theorem VecAlgo3_closestVertex (v0 v1 v2 p : V3 α) :
+    (Gen.VecAlgo3.closestVertex v0 v1 v2 p = v0 ∨ Gen.VecAlgo3.closestVertex v0 v1 v2 p = v1 ∨ Gen.VecAlgo3.closestVertex v0 v1 v2 p = v2) ∧
+    dist2 (Gen.VecAlgo3.closestVertex v0 v1 v2 p) p ≤ dist2 v0 p ∧ dist2 (Gen.VecAlgo3.closestVertex v0 v1 v2 p) p ≤ dist2 v1 p ∧
+    dist2 (Gen.VecAlgo3.closestVertex v0 v1 v2 p) p ≤ dist2 v2 p := by
+  simp only [Gen.VecAlgo3.closestVertex, dist2, dot, sub]
+  split_ifs with h1 h2 h3
+  · exact ⟨Or.inr (Or.inr rfl), by linarith, by linarith, le_refl _⟩
+  · exact ⟨Or.inr (Or.inl rfl), by linarith, le_refl _, by linarith⟩
+  · exact ⟨Or.inr (Or.inr rfl), by linarith, by linarith, le_refl _⟩
+  · exact ⟨Or.inl rfl, le_refl _, by linarith, by linarith⟩
+
+
+/-! the same for `Vec2` and `Vec4` (the templates are generic in the vector type) -/
+
+theorem VecAlgo2_project (tmin : α) (sqrt : α → α) (hlen : LenSpec2 (Gen.V2.length tmin sqrt)) (s t : V2 α) :
+    Gen.VecAlgo2.project tmin sqrt s t = smul2 (dot2 s t / dot2 s s) s := by
+  simp only [Gen.VecAlgo2.project]
+  len_intro hlen L hsq hnn
+  split_ifs with h0
+  · have hs := len_zero2 hsq h0
+    cases s; simp only [zero2, V2.mk.injEq] at hs
+    obtain ⟨h1, h2⟩ := hs
+    simp only [smul2, dot2, h1, h2, V2.mk.injEq]; refine ⟨?_, ?_⟩ <;> ring
+  · rw [← hsq]; simp only [smul2, dot2, V2.mk.injEq]; refine ⟨?_, ?_⟩ <;> ring
+
+theorem VecAlgo2_orthogonal (tmin : α) (sqrt : α → α) (hlen : LenSpec2 (Gen.V2.length tmin sqrt)) (s t : V2 α) :
+    Gen.VecAlgo2.orthogonal tmin sqrt s t = sub2 t (Gen.VecAlgo2.project tmin sqrt s t) ∧
+    dot2 (Gen.VecAlgo2.orthogonal tmin sqrt s t) s = 0 ∧
+    add2 (Gen.VecAlgo2.project tmin sqrt s t) (Gen.VecAlgo2.orthogonal tmin sqrt s t) = t := by
+  have h1 : Gen.VecAlgo2.orthogonal tmin sqrt s t = sub2 t (Gen.VecAlgo2.project tmin sqrt s t) := by
+    simp only [Gen.VecAlgo2.orthogonal, Gen.VecAlgo2.project]
+    split_ifs <;> rfl
+  refine ⟨h1, ?_, ?_⟩
+  · rw [h1, VecAlgo2_project tmin sqrt hlen]
+    have key : ∀ k, dot2 (sub2 t (smul2 k s)) s = dot2 s t - k * dot2 s s := by
+      intro k; simp only [dot2, sub2, smul2]; ring
+    rw [key]
+    by_cases hs : dot2 s s = 0
+    · rw [hs]; simp only [div_zero, zero_mul, sub_zero]
+      have := dot2_self_eq_zero hs
+      rw [this]; simp only [dot2, zero2]; ring
+    · field_simp; ring
+  · rw [h1]; cases t; simp only [add2, sub2, V2.mk.injEq]; refine ⟨?_, ?_⟩ <;> ring
+
+theorem VecAlgo2_reflect (tmin : α) (sqrt : α → α) (hlen : LenSpec2 (Gen.V2.length tmin sqrt)) (s t : V2 α) :
+    Gen.VecAlgo2.reflect tmin sqrt s t = sub2 (smul2 2 (Gen.VecAlgo2.project tmin sqrt t s)) s ∧
+    dot2 (Gen.VecAlgo2.reflect tmin sqrt s t) (Gen.VecAlgo2.reflect tmin sqrt s t) = dot2 s s ∧
+    Gen.VecAlgo2.reflect tmin sqrt (Gen.VecAlgo2.reflect tmin sqrt s t) t = s := by
+  have h1 : ∀ s, Gen.VecAlgo2.reflect tmin sqrt s t = sub2 (smul2 2 (Gen.VecAlgo2.project tmin sqrt t s)) s := by
+    intro s
+    simp only [Gen.VecAlgo2.reflect, Gen.VecAlgo2.project]
+    split_ifs <;> (simp only [sub2, smul2, V2.mk.injEq]; refine ⟨?_, ?_⟩ <;> ring)
+  refine ⟨h1 s, ?_, ?_⟩
+  · rw [h1, VecAlgo2_project tmin sqrt hlen]
+    have key : ∀ k, dot2 (sub2 (smul2 2 (smul2 k t)) s) (sub2 (smul2 2 (smul2 k t)) s) = dot2 s s + 4 * k * (k * dot2 t t - dot2 t s) := by
+      intro k; simp only [dot2, sub2, smul2]; ring
+    rw [key]
+    by_cases ht : dot2 t t = 0
+    · rw [ht]; simp only [div_zero, zero_mul, mul_zero, sub_zero, add_zero]
+    · field_simp; ring
+  · rw [h1, h1, VecAlgo2_project tmin sqrt hlen, VecAlgo2_project tmin sqrt hlen]
+    have key : ∀ k v, dot2 t (sub2 (smul2 2 (smul2 k t)) v) = 2 * k * dot2 t t - dot2 t v := by
+      intro k v; simp only [dot2, sub2, smul2]; ring
+    rw [key]
+    have key2 : ∀ k k', sub2 (smul2 2 (smul2 k' t)) (sub2 (smul2 2 (smul2 k t)) s) = add2 s (smul2 (2 * (k' - k)) t) := by
+      intro k k'; simp only [add2, sub2, smul2, V2.mk.injEq]; refine ⟨?_, ?_⟩ <;> ring
+    rw [key2]
+    have hk : (2 * (dot2 t s / dot2 t t) * dot2 t t - dot2 t s) / dot2 t t - dot2 t s / dot2 t t = 0 := by
+      by_cases ht : dot2 t t = 0
+      · rw [ht]; simp only [div_zero, sub_self]
+      · field_simp; ring
+    rw [hk]; cases s; simp only [add2, smul2, mul_zero, zero_mul, add_zero]
+
+theorem VecAlgo2_closestVertex (v0 v1 v2 p : V2 α) :
+    (Gen.VecAlgo2.closestVertex v0 v1 v2 p = v0 ∨ Gen.VecAlgo2.closestVertex v0 v1 v2 p = v1 ∨ Gen.VecAlgo2.closestVertex v0 v1 v2 p = v2) ∧
+    dist2v2 (Gen.VecAlgo2.closestVertex v0 v1 v2 p) p ≤ dist2v2 v0 p ∧ dist2v2 (Gen.VecAlgo2.closestVertex v0 v1 v2 p) p ≤ dist2v2 v1 p ∧
+    dist2v2 (Gen.VecAlgo2.closestVertex v0 v1 v2 p) p ≤ dist2v2 v2 p := by
+  simp only [Gen.VecAlgo2.closestVertex, dist2v2, dot2, sub2]
+  split_ifs with h1 h2 h3
+  · exact ⟨Or.inr (Or.inr rfl), by linarith, by linarith, le_refl _⟩
+  · exact ⟨Or.inr (Or.inl rfl), by linarith, le_refl _, by linarith⟩
+  · exact ⟨Or.inr (Or.inr rfl), by linarith, by linarith, le_refl _⟩
+  · exact ⟨Or.inl rfl, le_refl _, by linarith, by linarith⟩
+
+
+theorem VecAlgo4_project (tmin : α) (sqrt : α → α) (hlen : LenSpec4 (Gen.V4.length tmin sqrt)) (s t : V4 α) :
+    Gen.VecAlgo4.project tmin sqrt s t = smul4 (dot4 s t / dot4 s s) s := by
+  simp only [Gen.VecAlgo4.project]
+  len_intro hlen L hsq hnn
+  split_ifs with h0
+  · have hs := len_zero4 hsq h0
+    cases s; simp only [zero4, V4.mk.injEq] at hs
+    obtain ⟨h1, h2, h3, h4⟩ := hs
+    simp only [smul4, dot4, h1, h2, h3, h4, V4.mk.injEq]; refine ⟨?_, ?_, ?_, ?_⟩ <;> ring
+  · rw [← hsq]; simp only [smul4, dot4, V4.mk.injEq]; refine ⟨?_, ?_, ?_, ?_⟩ <;> ring
+
+theorem VecAlgo4_orthogonal (tmin : α) (sqrt : α → α) (hlen : LenSpec4 (Gen.V4.length tmin sqrt)) (s t : V4 α) :
+    Gen.VecAlgo4.orthogonal tmin sqrt s t = sub4 t (Gen.VecAlgo4.project tmin sqrt s t) ∧
+    dot4 (Gen.VecAlgo4.orthogonal tmin sqrt s t) s = 0 ∧
+    add4 (Gen.VecAlgo4.project tmin sqrt s t) (Gen.VecAlgo4.orthogonal tmin sqrt s t) = t := by
+  have h1 : Gen.VecAlgo4.orthogonal tmin sqrt s t = sub4 t (Gen.VecAlgo4.project tmin sqrt s t) := by
+    simp only [Gen.VecAlgo4.orthogonal, Gen.VecAlgo4.project]
+    split_ifs <;> rfl
+  refine ⟨h1, ?_, ?_⟩
+  · rw [h1, VecAlgo4_project tmin sqrt hlen]
+    have key : ∀ k, dot4 (sub4 t (smul4 k s)) s = dot4 s t - k * dot4 s s := by
+      intro k; simp only [dot4, sub4, smul4]; ring
+    rw [key]
+    by_cases hs : dot4 s s = 0
+    · rw [hs]; simp only [div_zero, zero_mul, sub_zero]
+      have := dot4_self_eq_zero hs
+      rw [this]; simp only [dot4, zero4]; ring
+    · field_simp; ring
+  · rw [h1]; cases t; simp only [add4, sub4, V4.mk.injEq]; refine ⟨?_, ?_, ?_, ?_⟩ <;> ring
+
+theorem VecAlgo4_reflect (tmin : α) (sqrt : α → α) (hlen : LenSpec4 (Gen.V4.length tmin sqrt)) (s t : V4 α) :
+    Gen.VecAlgo4.reflect tmin sqrt s t = sub4 (smul4 2 (Gen.VecAlgo4.project tmin sqrt t s)) s ∧
+    dot4 (Gen.VecAlgo4.reflect tmin sqrt s t) (Gen.VecAlgo4.reflect tmin sqrt s t) = dot4 s s ∧
+    Gen.VecAlgo4.reflect tmin sqrt (Gen.VecAlgo4.reflect tmin sqrt s t) t = s := by
+  have h1 : ∀ s, Gen.VecAlgo4.reflect tmin sqrt s t = sub4 (smul4 2 (Gen.VecAlgo4.project tmin sqrt t s)) s := by
+    intro s
+    simp only [Gen.VecAlgo4.reflect, Gen.VecAlgo4.project]
+    split_ifs <;> (simp only [sub4, smul4, V4.mk.injEq]; refine ⟨?_, ?_, ?_, ?_⟩ <;> ring)
+  refine ⟨h1 s, ?_, ?_⟩
+  · rw [h1, VecAlgo4_project tmin sqrt hlen]
+    have key : ∀ k, dot4 (sub4 (smul4 2 (smul4 k t)) s) (sub4 (smul4 2 (smul4 k t)) s) = dot4 s s + 4 * k * (k * dot4 t t - dot4 t s) := by
+      intro k; simp only [dot4, sub4, smul4]; ring
+    rw [key]
+    by_cases ht : dot4 t t = 0
+    · rw [ht]; simp only [div_zero, zero_mul, mul_zero, sub_zero, add_zero]
+    · field_simp; ring
+  · rw [h1, h1, VecAlgo4_project tmin sqrt hlen, VecAlgo4_project tmin sqrt hlen]
+    have key : ∀ k v, dot4 t (sub4 (smul4 2 (smul4 k t)) v) = 2 * k * dot4 t t - dot4 t v := by
+      intro k v; simp only [dot4, sub4, smul4]; ring
+    rw [key]
+    have key2 : ∀ k k', sub4 (smul4 2 (smul4 k' t)) (sub4 (smul4 2 (smul4 k t)) s) = add4 s (smul4 (2 * (k' - k)) t) := by
+      intro k k'; simp only [add4, sub4, smul4, V4.mk.injEq]; refine ⟨?_, ?_, ?_, ?_⟩ <;> ring
+    rw [key2]
+    have hk : (2 * (dot4 t s / dot4 t t) * dot4 t t - dot4 t s) / dot4 t t - dot4 t s / dot4 t t = 0 := by
+      by_cases ht : dot4 t t = 0
+      · rw [ht]; simp only [div_zero, sub_self]
+      · field_simp; ring
+    rw [hk]; cases s; simp only [add4, smul4, mul_zero, zero_mul, add_zero]
+
+theorem VecAlgo4_closestVertex (v0 v1 v2 p : V4 α) :
+    (Gen.VecAlgo4.closestVertex v0 v1 v2 p = v0 ∨ Gen.VecAlgo4.closestVertex v0 v1 v2 p = v1 ∨ Gen.VecAlgo4.closestVertex v0 v1 v2 p = v2) ∧
+    dist2v4 (Gen.VecAlgo4.closestVertex v0 v1 v2 p) p ≤ dist2v4 v0 p ∧ dist2v4 (Gen.VecAlgo4.closestVertex v0 v1 v2 p) p ≤ dist2v4 v1 p ∧
+    dist2v4 (Gen.VecAlgo4.closestVertex v0 v1 v2 p) p ≤ dist2v4 v2 p := by
+  simp only [Gen.VecAlgo4.closestVertex, dist2v4, dot4, sub4]
+  split_ifs with h1 h2 h3
+  · exact ⟨Or.inr (Or.inr rfl), by linarith, by linarith, le_refl _⟩
+  · exact ⟨Or.inr (Or.inl rfl), by linarith, le_refl _, by linarith⟩
+  · exact ⟨Or.inr (Or.inr rfl), by linarith, by linarith, le_refl _⟩
+  · exact ⟨Or.inl rfl, le_refl _, by linarith, by linarith⟩
+
+
+
+theorem Line3_closestPointToPoint_perp (l : Line3 α) (p : V3 α) (hu : dot l.dir l.dir = 1) :
+    dot (sub p (Gen.Line3.closestPointToPoint l p)) l.dir = 0 := by
+  simp only [dot, sub, Gen.Line3.closestPointToPoint] at hu ⊢
+  linear_combination (-((p.x - l.pos.x) * l.dir.x + (p.y - l.pos.y) * l.dir.y + (p.z - l.pos.z) * l.dir.z)) * hu
+
+/-! ## closestVertex, rotatePoint (ImathLineAlgo.h) -/
+
+/-- `closestVertex(v0,v1,v2,line)`: one of the three vertices, and none of them is nearer to the line (distance measured
+to `closestPointTo(vertex)`, the foot of the perpendicular for a unit direction) -/
+theorem LineAlgo_closestVertex (v0 v1 v2 : V3 α) (l : Line3 α) :
+    (Gen.LineAlgo.closestVertex v0 v1 v2 l = v0 ∨ Gen.LineAlgo.closestVertex v0 v1 v2 l = v1 ∨ Gen.LineAlgo.closestVertex v0 v1 v2 l = v2) ∧
+    ∀ v, v = v0 ∨ v = v1 ∨ v = v2 →
+      dist2 (Gen.LineAlgo.closestVertex v0 v1 v2 l) (Gen.Line3.closestPointToPoint l (Gen.LineAlgo.closestVertex v0 v1 v2 l))
+        ≤ dist2 v (Gen.Line3.closestPointToPoint l v) := by
+  simp only [Gen.LineAlgo.closestVertex]
+  split_ifs with h1 h2 h3
+  all_goals
+    refine ⟨by first | exact Or.inl rfl | exact Or.inr (Or.inl rfl) | exact Or.inr (Or.inr rfl), fun v hv => ?_⟩
+    simp only [dist2, dot, sub, Gen.Line3.closestPointToPoint]
+    rcases hv with h | h | h <;> (subst h; linarith)
+
+/-- `rotatePoint(p, l, angle)` for a unit direction: with `q` the foot of the perpendicular from `p` and `x = p − q`,
+the result is `q + cos(angle)·x + sin(angle)·(x × dir)` (Rodrigues' formula for the rotation about the line; `x × dir`
+is `x` turned by a quarter turn in the plane perpendicular to the line).  A point on the line is fixed. -/
+theorem LineAlgo_rotatePoint (tmin : α) (sqrt sin cos : α → α) (hlen : LenSpec (Gen.V3.length tmin sqrt))
+    (p : V3 α) (l : Line3 α) (angle : α) (hu : dot l.dir l.dir = 1) :
+    Gen.LineAlgo.rotatePoint tmin sqrt sin cos p l angle =
+      add (add (Gen.Line3.closestPointToPoint l p) (smul (cos angle) (sub p (Gen.Line3.closestPointToPoint l p))))
+        (smul (sin angle) (cross (sub p (Gen.Line3.closestPointToPoint l p)) l.dir)) := by
+  simp only [Gen.LineAlgo.rotatePoint, Gen.Line3.closestPointToPoint]
+  len_intro hlen R hR hRnn
+  by_cases hR0 : R = 0
+  · -- p is on the line: x = 0
+    rw [if_pos hR0]
+    have hx := len_zero hR hR0
+    simp only [zero, V3.mk.injEq] at hx
+    obtain ⟨hx1, hx2, hx3⟩ := hx
+    len_intro hlen L hL hLnn
+    simp only [hx1, hx2, hx3, hR0, add, sub, smul, cross, mul_zero, zero_mul, sub_self, add_zero, V3.mk.injEq]
+    split_ifs <;> simp only [mul_zero, zero_mul, zero_div, add_zero, and_self]
+  · rw [if_neg hR0]
+    len_intro hlen L hL hLnn
+    -- x/R is a unit vector perpendicular to dir, so |x/R × dir| = 1
+    have hperp : dot (sub p (Gen.Line3.closestPointToPoint l p)) l.dir = 0 := (Line3_closestPointToPoint_perp l p hu)
+    have hL1 : L = 1 := by
+      apply len_unit _ hLnn
+      rw [hL]
+      have e : ∀ x d : V3 α, dot (⟨x.y / R * d.z - x.z / R * d.y, x.z / R * d.x - x.x / R * d.z, x.x / R * d.y - x.y / R * d.x⟩ : V3 α)
+          ⟨x.y / R * d.z - x.z / R * d.y, x.z / R * d.x - x.x / R * d.z, x.x / R * d.y - x.y / R * d.x⟩
+          = (dot x x * dot d d - dot x d ^ 2) / R ^ 2 := by
+        intro x d; simp only [dot]; field_simp; ring
+      have hR' : dot (sub p (Gen.Line3.closestPointToPoint l p)) (sub p (Gen.Line3.closestPointToPoint l p)) = R ^ 2 := by
+        rw [hR]; simp only [dot, sub, Gen.Line3.closestPointToPoint]
+      have := e (sub p (Gen.Line3.closestPointToPoint l p)) l.dir
+      rw [hR', hu, hperp] at this
+      simp only [dot, sub, Gen.Line3.closestPointToPoint] at this ⊢
+      rw [this]; field_simp; ring
+    subst hL1
+    simp only [one_ne_zero, if_false, div_one, add, sub, smul, cross, V3.mk.injEq]
+    refine ⟨?_, ?_, ?_⟩ <;> field_simp <;> ring
+
+/-- consequently (with `sin² + cos² = 1`) the image stays on the circle through `p` around the line: same distance
+from the foot `q`, still in the plane through `q` perpendicular to the line, at angle `angle` from `p − q` -/
+theorem LineAlgo_rotatePoint_circle (tmin : α) (sqrt sin cos : α → α) (hlen : LenSpec (Gen.V3.length tmin sqrt))
+    (p : V3 α) (l : Line3 α) (angle : α) (hu : dot l.dir l.dir = 1) (hsc : sin angle ^ 2 + cos angle ^ 2 = 1) :
+    dist2 (Gen.LineAlgo.rotatePoint tmin sqrt sin cos p l angle) (Gen.Line3.closestPointToPoint l p)
+      = dist2 p (Gen.Line3.closestPointToPoint l p) ∧
+    dot (sub (Gen.LineAlgo.rotatePoint tmin sqrt sin cos p l angle) (Gen.Line3.closestPointToPoint l p)) l.dir = 0 ∧
+    dot (sub (Gen.LineAlgo.rotatePoint tmin sqrt sin cos p l angle) (Gen.Line3.closestPointToPoint l p))
+        (sub p (Gen.Line3.closestPointToPoint l p)) = cos angle * dist2 p (Gen.Line3.closestPointToPoint l p) := by
+  rw [LineAlgo_rotatePoint tmin sqrt sin cos hlen p l angle hu]
+  have hperp := Line3_closestPointToPoint_perp l p hu
+  generalize Gen.Line3.closestPointToPoint l p = q at *
+  generalize sin angle = s at *
+  generalize cos angle = c at *
+  simp only [dist2, dot, sub, add, smul, cross] at *
+  refine ⟨?_, ?_, ?_⟩
+  · linear_combination (s ^ 2 * ((p.x - q.x) * (p.x - q.x) + (p.y - q.y) * (p.y - q.y) + (p.z - q.z) * (p.z - q.z))) * hu
+      - (s ^ 2 * ((p.x - q.x) * l.dir.x + (p.y - q.y) * l.dir.y + (p.z - q.z) * l.dir.z)) * hperp
+      + ((p.x - q.x) * (p.x - q.x) + (p.y - q.y) * (p.y - q.y) + (p.z - q.z) * (p.z - q.z)) * hsc
+  · linear_combination c * hperp
+  · ring
+
+/-! ## triangle `intersect` (ImathLineAlgo.h) -/
+
+/-- decide the next range test `c` (stated with the named quantities): in the failing branch the tree evaluates to a
+`false` leaf, which contradicts the conjunction; in the passing branch the tree is pruned and the proof continues -/
+macro "tri_req " h:ident " : " c:term : tactic => `(tactic| (
+  by_cases $h : $c
+  on_goal 2 =>
+    have h' := $h
+    simp only [triBy, triBx, triBz, triE, triF, triPt, triD, triNd, triNh, triN, divS, perpTo, dot, cross, sub, lineAt] at h'
+    first | simp only [if_neg h'] | simp only [if_pos h']
+    exact ⟨⟨fun hh => (by cases hh), fun hc => by tauto⟩, fun hh => (by cases hh)⟩
+  on_goal 1 =>
+    have h' := $h
+    simp only [triBy, triBx, triBz, triE, triF, triPt, triD, triNd, triNh, triN, divS, perpTo, dot, cross, sub, lineAt] at h'
+    first | simp only [if_pos h'] | simp only [if_neg h']
+    clear h'))
+
+/-- the same for a condition that must FAIL (`barycentric.y < 0`) -/
+macro "tri_forbid " h:ident " : " c:term : tactic => `(tactic| (
+  by_cases $h : $c
+  on_goal 1 =>
+    have h' := $h
+    simp only [triBy, triBx, triBz, triE, triF, triPt, triD, triNd, triNh, triN, divS, perpTo, dot, cross, sub, lineAt] at h'
+    simp only [if_pos h']
+    exact ⟨⟨fun hh => (by cases hh), fun hc => by tauto⟩, fun hh => (by cases hh)⟩
+  on_goal 1 =>
+    have h' := $h
+    simp only [triBy, triBx, triBz, triE, triF, triPt, triD, triNd, triNh, triN, divS, perpTo, dot, cross, sub, lineAt] at h'
+    simp only [if_neg h']
+    clear h'))
+
+set_option maxHeartbeats 4000000 in
+theorem tri_spec (tmin tmax : α) (sqrt : α → α) (hlen : LenSpec (Gen.V3.length tmin sqrt)) (l : Line3 α) (v0 v1 v2 : V3 α) :
+    ((Gen.LineAlgo.intersect tmin tmax sqrt l v0 v1 v2).1 = true ↔
+      Gen.V3.length tmin sqrt (triN v0 v1 v2) ≠ 0 ∧
+      (1 < sabs (triNd (Gen.V3.length tmin sqrt) l v0 v1 v2) ∨
+        sabs (triD (Gen.V3.length tmin sqrt) l v0 v1 v2) < tmax * sabs (triNd (Gen.V3.length tmin sqrt) l v0 v1 v2)) ∧
+      0 ≤ triE (Gen.V3.length tmin sqrt) (triPt (Gen.V3.length tmin sqrt) l v0 v1 v2) v0 v1 v2 ∧
+      triE (Gen.V3.length tmin sqrt) (triPt (Gen.V3.length tmin sqrt) l v0 v1 v2) v0 v1 v2 ≤ triF (Gen.V3.length tmin sqrt) v0 v1 v2 ∧
+      0 ≤ triE (Gen.V3.length tmin sqrt) (triPt (Gen.V3.length tmin sqrt) l v0 v1 v2) v1 v2 v0 ∧
+      triE (Gen.V3.length tmin sqrt) (triPt (Gen.V3.length tmin sqrt) l v0 v1 v2) v1 v2 v0 ≤ triF (Gen.V3.length tmin sqrt) v1 v2 v0 ∧
+      ¬ triBy (Gen.V3.length tmin sqrt) l v0 v1 v2 < 0) ∧
+    ((Gen.LineAlgo.intersect tmin tmax sqrt l v0 v1 v2).1 = true →
+      (Gen.LineAlgo.intersect tmin tmax sqrt l v0 v1 v2).2.1 = triPt (Gen.V3.length tmin sqrt) l v0 v1 v2 ∧
+      (Gen.LineAlgo.intersect tmin tmax sqrt l v0 v1 v2).2.2.1 =
+        ⟨triBx (Gen.V3.length tmin sqrt) l v0 v1 v2, triBy (Gen.V3.length tmin sqrt) l v0 v1 v2, triBz (Gen.V3.length tmin sqrt) l v0 v1 v2⟩ ∧
+      ((Gen.LineAlgo.intersect tmin tmax sqrt l v0 v1 v2).2.2.2 = true ↔ dot l.dir (triNh (Gen.V3.length tmin sqrt) v0 v1 v2) < 0)) := by
+  by_cases hL0 : Gen.V3.length tmin sqrt (triN v0 v1 v2) = 0
+  · have h : (Gen.LineAlgo.intersect tmin tmax sqrt l v0 v1 v2).1 = false := by
+      have hL0' := hL0
+      simp only [triN, cross, sub] at hL0'
+      simp only [Gen.LineAlgo.intersect, if_pos hL0']
+    rw [h]
+    exact ⟨⟨fun h => (by cases h), fun h => absurd hL0 h.1⟩, fun h => (by cases h)⟩
+  · -- non-degenerate triangle: both edges have non-zero length
+    have hN : triN v0 v1 v2 ≠ zero := fun h0 => hL0 (by
+      have := (hlen (triN v0 v1 v2)).1
+      rw [h0] at this ⊢
+      simp only [dot, zero, mul_zero, add_zero] at this
+      exact pow_eq_zero_iff (two_ne_zero) |>.mp this)
+    have hL1 : Gen.V3.length tmin sqrt (sub v1 v0) ≠ 0 := by
+      intro h0
+      have hz := len_zero (hlen (sub v1 v0)).1 h0
+      apply hN
+      simp only [sub, zero, V3.mk.injEq] at hz
+      obtain ⟨h1, h2, h3⟩ := hz
+      simp only [triN, cross, sub, zero, V3.mk.injEq, h1, h2, h3, mul_zero, sub_self, and_self]
+    have hL2 : Gen.V3.length tmin sqrt (sub v2 v1) ≠ 0 := by
+      intro h0
+      have hz := len_zero (hlen (sub v2 v1)).1 h0
+      apply hN
+      simp only [sub, zero, V3.mk.injEq] at hz
+      obtain ⟨h1, h2, h3⟩ := hz
+      simp only [triN, cross, sub, zero, V3.mk.injEq, h1, h2, h3, zero_mul, sub_self, and_self]
+    have hL0' := hL0
+    have hL1' := hL1
+    have hL2' := hL2
+    simp only [triN, cross, sub] at hL0' hL1' hL2'
+    simp only [Gen.LineAlgo.intersect, if_neg hL0', if_neg hL1', if_neg hL2']
+    -- the guard: two spellings of "not nearly parallel"
+    by_cases g1 : 1 < sabs (triNd (Gen.V3.length tmin sqrt) l v0 v1 v2)
+    on_goal 2 => by_cases g2 : sabs (triD (Gen.V3.length tmin sqrt) l v0 v1 v2) < tmax * sabs (triNd (Gen.V3.length tmin sqrt) l v0 v1 v2)
+    on_goal 3 =>
+      have g1' := g1
+      have g2' := g2
+      simp only [triD, triNd, triNh, triN, divS, dot, cross, sub] at g1' g2'
+      simp only [if_neg g1', if_neg g2']
+      exact ⟨⟨fun h => (by cases h), fun hc => by tauto⟩, fun h => (by cases h)⟩
+    on_goal 1 =>
+      have g1' := g1
+      simp only [triD, triNd, triNh, triN, divS, dot, cross, sub] at g1'
+      simp only [if_pos g1']
+      clear g1'
+    on_goal 2 =>
+      have g1' := g1
+      have g2' := g2
+      simp only [triD, triNd, triNh, triN, divS, dot, cross, sub] at g1' g2'
+      simp only [if_neg g1', if_pos g2']
+      clear g1' g2'
+    all_goals
+      tri_req e0a : 0 ≤ triE (Gen.V3.length tmin sqrt) (triPt (Gen.V3.length tmin sqrt) l v0 v1 v2) v0 v1 v2
+      tri_req e0b : triE (Gen.V3.length tmin sqrt) (triPt (Gen.V3.length tmin sqrt) l v0 v1 v2) v0 v1 v2 ≤ triF (Gen.V3.length tmin sqrt) v0 v1 v2
+      tri_req e1a : 0 ≤ triE (Gen.V3.length tmin sqrt) (triPt (Gen.V3.length tmin sqrt) l v0 v1 v2) v1 v2 v0
+      tri_req e1b : triE (Gen.V3.length tmin sqrt) (triPt (Gen.V3.length tmin sqrt) l v0 v1 v2) v1 v2 v0 ≤ triF (Gen.V3.length tmin sqrt) v1 v2 v0
+      tri_forbid eby : triBy (Gen.V3.length tmin sqrt) l v0 v1 v2 < 0
+      by_cases hf : dot l.dir (triNh (Gen.V3.length tmin sqrt) v0 v1 v2) < 0
+      all_goals
+        have hf' := hf
+        simp only [triNh, triN, divS, dot, cross, sub] at hf'
+        first | rw [if_pos hf'] | rw [if_neg hf']
+        refine ⟨⟨fun _ => ⟨hL0, by tauto, e0a, e0b, e1a, e1b, eby⟩, fun _ => rfl⟩, fun _ => ⟨rfl, rfl, ?_⟩⟩
+        first | exact ⟨fun _ => hf, fun _ => rfl⟩ | exact ⟨fun hh => (by cases hh), fun hh => absurd hh hf⟩
+
+/-- facts shared by soundness and completeness: for a non-degenerate triangle and a line not parallel to its plane
+the computed point lies in the plane, and the two computed barycentrics are the Gram-determinant quotients -/
+theorem tri_facts (tmin : α) (sqrt : α → α) (hlen : LenSpec (Gen.V3.length tmin sqrt)) (l : Line3 α) (v0 v1 v2 : V3 α)
+    (hL0 : Gen.V3.length tmin sqrt (triN v0 v1 v2) ≠ 0) (hnd : triNd (Gen.V3.length tmin sqrt) l v0 v1 v2 ≠ 0) :
+    0 < dot (triN v0 v1 v2) (triN v0 v1 v2) ∧
+    dot (triN v0 v1 v2) (sub (triPt (Gen.V3.length tmin sqrt) l v0 v1 v2) v0) = 0 ∧
+    (∀ p, triE (Gen.V3.length tmin sqrt) p v0 v1 v2 = numA p v0 v1 v2 / dot (sub v1 v0) (sub v1 v0)) ∧
+    (∀ p, triE (Gen.V3.length tmin sqrt) p v1 v2 v0 = numA p v1 v2 v0 / dot (sub v2 v1) (sub v2 v1)) ∧
+    triF (Gen.V3.length tmin sqrt) v0 v1 v2 = dot (triN v0 v1 v2) (triN v0 v1 v2) / dot (sub v1 v0) (sub v1 v0) ∧
+    triF (Gen.V3.length tmin sqrt) v1 v2 v0 = dot (triN v0 v1 v2) (triN v0 v1 v2) / dot (sub v2 v1) (sub v2 v1) ∧
+    0 < dot (sub v1 v0) (sub v1 v0) ∧ 0 < dot (sub v2 v1) (sub v2 v1) := by
+  obtain ⟨hsq0, hnn0⟩ := hlen (triN v0 v1 v2)
+  have hN : triN v0 v1 v2 ≠ zero := fun h0 => hL0 (by
+    rw [h0] at hsq0 ⊢
+    simp only [dot, zero, mul_zero, add_zero] at hsq0
+    exact pow_eq_zero_iff (two_ne_zero) |>.mp hsq0)
+  have hNpos := dot_self_pos hN
+  have hE0 : sub v1 v0 ≠ zero := by
+    intro hz; apply hN
+    simp only [sub, zero, V3.mk.injEq] at hz
+    obtain ⟨h1, h2, h3⟩ := hz
+    simp only [triN, cross, sub, zero, V3.mk.injEq, h1, h2, h3, mul_zero, sub_self, and_self]
+  have hE1 : sub v2 v1 ≠ zero := by
+    intro hz; apply hN
+    simp only [sub, zero, V3.mk.injEq] at hz
+    obtain ⟨h1, h2, h3⟩ := hz
+    simp only [triN, cross, sub, zero, V3.mk.injEq, h1, h2, h3, zero_mul, sub_self, and_self]
+  obtain ⟨hsq1, _⟩ := hlen (sub v1 v0)
+  obtain ⟨hsq2, _⟩ := hlen (sub v2 v1)
+  have hL1 := len_ne_zero hsq1 hE0
+  have hL2 := len_ne_zero hsq2 hE1
+  obtain ⟨hd0, hd1⟩ := denA_eq v0 v1 v2
+  refine ⟨hNpos, ?_, fun p => ?_, fun p => ?_, ?_, ?_, dot_self_pos hE0, dot_self_pos hE1⟩
+  · -- the hit point is in the triangle's plane
+    have hnd' := hnd
+    simp only [triPt, triD, triNd, triNh, divS, lineAt] at hnd' ⊢
+    generalize Gen.V3.length tmin sqrt (triN v0 v1 v2) = L0 at *
+    generalize triN v0 v1 v2 = N at *
+    simp only [dot, sub] at hnd' ⊢
+    have hnd'' : N.x * l.dir.x + N.y * l.dir.y + N.z * l.dir.z ≠ 0 := by
+      intro h0; apply hnd'
+      have : N.x / L0 * l.dir.x + N.y / L0 * l.dir.y + N.z / L0 * l.dir.z = (N.x * l.dir.x + N.y * l.dir.y + N.z * l.dir.z) / L0 := by ring
+      rw [this, h0, zero_div]
+    field_simp
+    ring
+  · unfold triE numA; exact perp_e_eq _ _ _ _ hL1 hsq1
+  · unfold triE numA; exact perp_e_eq _ _ _ _ hL2 hsq2
+  · unfold triF; rw [perp_e_eq _ _ _ _ hL1 hsq1, ← hd0]; unfold denA; ring
+  · unfold triF; rw [perp_e_eq _ _ _ _ hL2 hsq2, ← hd1]; unfold denA; ring
+
+/-- SOUNDNESS of triangle `intersect`: when it returns `true`, the returned point lies on the line and in the closed
+triangle — the returned barycentric coordinates are non-negative, sum to one and reproduce the point
+(`pt = b.x·v0 + b.y·v1 + b.z·v2`, as documented) — and `front` is `true` exactly when the line's direction has a negative
+dot product with the normal `(v2−v1)×(v1−v0)` (as documented). -/
+theorem LineAlgo_intersect_sound (tmin tmax : α) (sqrt : α → α) (hlen : LenSpec (Gen.V3.length tmin sqrt))
+    (l : Line3 α) (v0 v1 v2 : V3 α) (ht : (Gen.LineAlgo.intersect tmin tmax sqrt l v0 v1 v2).1 = true) :
+    OnLine l (Gen.LineAlgo.intersect tmin tmax sqrt l v0 v1 v2).2.1 ∧
+    0 ≤ (Gen.LineAlgo.intersect tmin tmax sqrt l v0 v1 v2).2.2.1.x ∧ 0 ≤ (Gen.LineAlgo.intersect tmin tmax sqrt l v0 v1 v2).2.2.1.y ∧
+    0 ≤ (Gen.LineAlgo.intersect tmin tmax sqrt l v0 v1 v2).2.2.1.z ∧
+    (Gen.LineAlgo.intersect tmin tmax sqrt l v0 v1 v2).2.2.1.x + (Gen.LineAlgo.intersect tmin tmax sqrt l v0 v1 v2).2.2.1.y
+      + (Gen.LineAlgo.intersect tmin tmax sqrt l v0 v1 v2).2.2.1.z = 1 ∧
+    (Gen.LineAlgo.intersect tmin tmax sqrt l v0 v1 v2).2.1
+      = baryPoint (Gen.LineAlgo.intersect tmin tmax sqrt l v0 v1 v2).2.2.1 v0 v1 v2 ∧
+    InTriangle v0 v1 v2 (Gen.LineAlgo.intersect tmin tmax sqrt l v0 v1 v2).2.1 ∧
+    ((Gen.LineAlgo.intersect tmin tmax sqrt l v0 v1 v2).2.2.2 = true ↔ dot l.dir (triN v0 v1 v2) < 0) := by
+  obtain ⟨hiff, hout⟩ := tri_spec tmin tmax sqrt hlen l v0 v1 v2
+  obtain ⟨hL0, hg, e0a, e0b, e1a, e1b, hby⟩ := hiff.mp ht
+  obtain ⟨hpt, hb, hfront⟩ := hout ht
+  have hnd : triNd (Gen.V3.length tmin sqrt) l v0 v1 v2 ≠ 0 := by
+    intro h0
+    rw [h0] at hg
+    simp only [sabs_eq_abs, abs_zero, mul_zero] at hg
+    rcases hg with hg | hg
+    · linarith
+    · exact absurd hg (not_lt.mpr (abs_nonneg _))
+  obtain ⟨hNpos, hplane, hE0, hE1, hF0, hF1, hQ0, hQ1⟩ := tri_facts tmin sqrt hlen l v0 v1 v2 hL0 hnd
+  rw [hE0] at e0a
+  rw [hE1] at e1a
+  -- the two computed coordinates as Gram quotients over |N|²
+  have hbz : triBz (Gen.V3.length tmin sqrt) l v0 v1 v2
+      = numA (triPt (Gen.V3.length tmin sqrt) l v0 v1 v2) v0 v1 v2 / dot (triN v0 v1 v2) (triN v0 v1 v2) := by
+    unfold triBz; rw [hE0, hF0]; field_simp
+  have hbx : triBx (Gen.V3.length tmin sqrt) l v0 v1 v2
+      = numA (triPt (Gen.V3.length tmin sqrt) l v0 v1 v2) v1 v2 v0 / dot (triN v0 v1 v2) (triN v0 v1 v2) := by
+    unfold triBx; rw [hE1, hF1]; field_simp
+  have hbz0 : 0 ≤ triBz (Gen.V3.length tmin sqrt) l v0 v1 v2 := by
+    rw [hbz]; apply div_nonneg _ (le_of_lt hNpos)
+    have := (div_nonneg_iff.mp e0a); rcases this with ⟨h, _⟩ | ⟨_, h⟩
+    · exact h
+    · linarith
+  have hbx0 : 0 ≤ triBx (Gen.V3.length tmin sqrt) l v0 v1 v2 := by
+    rw [hbx]; apply div_nonneg _ (le_of_lt hNpos)
+    have := (div_nonneg_iff.mp e1a); rcases this with ⟨h, _⟩ | ⟨_, h⟩
+    · exact h
+    · linarith
+  have hbary : triPt (Gen.V3.length tmin sqrt) l v0 v1 v2
+      = baryPoint ⟨triBx (Gen.V3.length tmin sqrt) l v0 v1 v2, triBy (Gen.V3.length tmin sqrt) l v0 v1 v2,
+          triBz (Gen.V3.length tmin sqrt) l v0 v1 v2⟩ v0 v1 v2 := by
+    have hid := bary_identity (triPt (Gen.V3.length tmin sqrt) l v0 v1 v2) v0 v1 v2
+    rw [hplane] at hid
+    unfold triBy
+    rw [hbx, hbz]
+    generalize triPt (Gen.V3.length tmin sqrt) l v0 v1 v2 = p at *
+    generalize numA p v1 v2 v0 = A' at *
+    generalize numA p v0 v1 v2 = A at *
+    generalize dot (triN v0 v1 v2) (triN v0 v1 v2) = Q at *
+    have hQ : Q ≠ 0 := ne_of_gt hNpos
+    cases p with | mk px py pz =>
+    simp only [sub, add, smul, baryPoint, V3.mk.injEq, neg_zero, zero_mul] at hid ⊢
+    obtain ⟨h1, h2, h3⟩ := hid
+    refine ⟨?_, ?_, ?_⟩ <;> field_simp <;> linarith
+  rw [hpt, hb]
+  refine ⟨⟨_, rfl⟩, hbx0, not_lt.mp hby, hbz0, by unfold triBy; ring, hbary, ?_, ?_⟩
+  · exact ⟨_, hbx0, not_lt.mp hby, hbz0, by unfold triBy; ring, hbary⟩
+  · rw [hfront]
+    obtain ⟨hsq0, hnn0⟩ := hlen (triN v0 v1 v2)
+    have hLpos : 0 < Gen.V3.length tmin sqrt (triN v0 v1 v2) := lt_of_le_of_ne hnn0 (Ne.symm hL0)
+    have : dot l.dir (triNh (Gen.V3.length tmin sqrt) v0 v1 v2) = dot l.dir (triN v0 v1 v2) / Gen.V3.length tmin sqrt (triN v0 v1 v2) := by
+      simp only [triNh, divS, dot]; ring
+    rw [this, div_neg_iff]
+    constructor
+    · rintro (⟨_, h⟩ | ⟨h, _⟩)
+      · linarith
+      · exact h
+    · intro h; exact Or.inr ⟨h, hLpos⟩
+
+/-- Gram numerators of a point given by barycentric coordinates -/
+theorem numA_of_bary (b v0 v1 v2 : V3 α) (hs : b.x + b.y + b.z = 1) :
+    numA (baryPoint b v0 v1 v2) v0 v1 v2 = b.z * dot (triN v0 v1 v2) (triN v0 v1 v2) ∧
+    numA (baryPoint b v0 v1 v2) v1 v2 v0 = b.x * dot (triN v0 v1 v2) (triN v0 v1 v2) := by
+  have hy : b.y = 1 - b.x - b.z := by linarith
+  constructor <;> (simp only [numA, baryPoint, triN, dot, cross, sub, add, smul, hy]; ring)
+
+/-- COMPLETENESS of triangle `intersect`: for a non-degenerate triangle and a line that is not parallel to its plane,
+if the line meets the closed triangle at a parameter `t` with `|t| < tmax` (the documented "nearly parallel" overflow
+guard does not fire), the result is `true`.  Together with soundness: `true` ↔ the line meets the plane inside the triangle. -/
+theorem LineAlgo_intersect_complete (tmin tmax : α) (sqrt : α → α) (hlen : LenSpec (Gen.V3.length tmin sqrt))
+    (l : Line3 α) (v0 v1 v2 : V3 α) (t : α) (hN : triN v0 v1 v2 ≠ zero) (hnp : dot l.dir (triN v0 v1 v2) ≠ 0)
+    (hin : InTriangle v0 v1 v2 (lineAt l t)) (ht : |t| < tmax) :
+    (Gen.LineAlgo.intersect tmin tmax sqrt l v0 v1 v2).1 = true := by
+  obtain ⟨hiff, _⟩ := tri_spec tmin tmax sqrt hlen l v0 v1 v2
+  obtain ⟨b, hb0, hb1, hb2, hbs, hpb⟩ := hin
+  obtain ⟨hsq0, hnn0⟩ := hlen (triN v0 v1 v2)
+  have hL0 : Gen.V3.length tmin sqrt (triN v0 v1 v2) ≠ 0 := len_ne_zero hsq0 hN
+  have hLpos : 0 < Gen.V3.length tmin sqrt (triN v0 v1 v2) := lt_of_le_of_ne hnn0 (Ne.symm hL0)
+  have hndv : triNd (Gen.V3.length tmin sqrt) l v0 v1 v2 = dot l.dir (triN v0 v1 v2) / Gen.V3.length tmin sqrt (triN v0 v1 v2) := by
+    simp only [triNd, triNh, divS, dot]; ring
+  have hnd : triNd (Gen.V3.length tmin sqrt) l v0 v1 v2 ≠ 0 := by
+    rw [hndv]; exact div_ne_zero hnp hL0
+  -- the given point is in the plane, hence its parameter is the computed one
+  have hplane : dot (triN v0 v1 v2) (sub (lineAt l t) v0) = 0 := by
+    rw [hpb]
+    have hy : b.y = 1 - b.x - b.z := by linarith
+    simp only [baryPoint, triN, dot, cross, sub, add, smul, hy]; ring
+  have htd : triD (Gen.V3.length tmin sqrt) l v0 v1 v2 = t * triNd (Gen.V3.length tmin sqrt) l v0 v1 v2 := by
+    rw [hndv]
+    have : triD (Gen.V3.length tmin sqrt) l v0 v1 v2 = dot (triN v0 v1 v2) (sub v0 l.pos) / Gen.V3.length tmin sqrt (triN v0 v1 v2) := by
+      simp only [triD, triNh, divS, dot]; ring
+    rw [this]
+    field_simp
+    simp only [dot, sub, lineAt] at hplane ⊢
+    linear_combination -hplane
+  have htq : triD (Gen.V3.length tmin sqrt) l v0 v1 v2 / triNd (Gen.V3.length tmin sqrt) l v0 v1 v2 = t := by
+    rw [htd]; field_simp
+  have hpt : triPt (Gen.V3.length tmin sqrt) l v0 v1 v2 = baryPoint b v0 v1 v2 := by
+    unfold triPt; rw [htq, hpb]
+  obtain ⟨hNpos, _, hE0, hE1, hF0, hF1, hQ0, hQ1⟩ := tri_facts tmin sqrt hlen l v0 v1 v2 hL0 hnd
+  obtain ⟨hA, hA'⟩ := numA_of_bary b v0 v1 v2 hbs
+  have hbz : triBz (Gen.V3.length tmin sqrt) l v0 v1 v2 = b.z := by
+    unfold triBz; rw [hE0, hF0, hpt, hA]; field_simp
+  have hbx : triBx (Gen.V3.length tmin sqrt) l v0 v1 v2 = b.x := by
+    unfold triBx; rw [hE1, hF1, hpt, hA']; field_simp
+  apply hiff.mpr
+  refine ⟨hL0, Or.inr ?_, ?_, ?_, ?_, ?_, ?_⟩
+  · rw [sabs_eq_abs, sabs_eq_abs, htd, abs_mul]
+    exact mul_lt_mul_of_pos_right ht (abs_pos.mpr hnd)
+  · rw [hE0, hpt, hA]; exact div_nonneg (mul_nonneg hb2 (le_of_lt hNpos)) (le_of_lt hQ0)
+  · rw [hE0, hF0, hpt, hA]
+    apply div_le_div_of_nonneg_right _ (le_of_lt hQ0)
+    nlinarith
+  · rw [hE1, hpt, hA']; exact div_nonneg (mul_nonneg hb0 (le_of_lt hNpos)) (le_of_lt hQ1)
+  · rw [hE1, hF1, hpt, hA']
+    apply div_le_div_of_nonneg_right _ (le_of_lt hQ1)
+    nlinarith
+  · unfold triBy; rw [hbx, hbz]; linarith
+
+
+/-- a zero-area triangle, or a line parallel to the triangle's plane, is reported `false` (nothing is divided by zero) -/
+theorem LineAlgo_intersect_degenerate (tmin tmax : α) (sqrt : α → α) (hlen : LenSpec (Gen.V3.length tmin sqrt))
+    (l : Line3 α) (v0 v1 v2 : V3 α) (h : triN v0 v1 v2 = zero ∨ dot l.dir (triN v0 v1 v2) = 0) :
+    (Gen.LineAlgo.intersect tmin tmax sqrt l v0 v1 v2).1 = false := by
+  obtain ⟨hiff, _⟩ := tri_spec tmin tmax sqrt hlen l v0 v1 v2
+  by_contra hne
+  have ht : (Gen.LineAlgo.intersect tmin tmax sqrt l v0 v1 v2).1 = true := by
+    cases hb : (Gen.LineAlgo.intersect tmin tmax sqrt l v0 v1 v2).1 with
+    | true => rfl
+    | false => exact absurd hb hne
+  obtain ⟨hL0, hg, _⟩ := hiff.mp ht
+  have hnd0 : triNd (Gen.V3.length tmin sqrt) l v0 v1 v2 = 0 := by
+    have hndv : triNd (Gen.V3.length tmin sqrt) l v0 v1 v2 = dot l.dir (triN v0 v1 v2) / Gen.V3.length tmin sqrt (triN v0 v1 v2) := by
+      simp only [triNd, triNh, divS, dot]; ring
+    rcases h with h | h
+    · rw [hndv, h]; simp only [dot, zero, mul_zero, add_zero, zero_div]
+    · rw [hndv, h, zero_div]
+  rw [hnd0] at hg
+  simp only [sabs_eq_abs, abs_zero, mul_zero] at hg
+  rcases hg with hg | hg
+  · linarith
+  · exact absurd hg (not_lt.mpr (abs_nonneg _))
+
+/-! ## the length hypothesis is satisfiable: it FOLLOWS from `SqrtSpec sqrt` for the real `Vec::length()` bodies -/
+
+/-- `Vec3::length()` (all 65 paths incl. `lengthTiny`) satisfies `LenSpec` for every `tmin` once `sqrt` is a square root -/
+theorem V3_length_LenSpec (tmin : α) (sqrt : α → α) (hs : SqrtSpec sqrt) : LenSpec (Gen.V3.length tmin sqrt) :=
+  V3_length_spec tmin sqrt hs
+theorem V2_length_LenSpec (tmin : α) (sqrt : α → α) (hs : SqrtSpec sqrt) : LenSpec2 (Gen.V2.length tmin sqrt) :=
+  V2_length_spec tmin sqrt hs
+theorem V4_length_LenSpec (tmin : α) (sqrt : α → α) (hs : SqrtSpec sqrt) : LenSpec4 (Gen.V4.length tmin sqrt) :=
+  V4_length_spec tmin sqrt hs
+
+/-! ## non-vacuity: concrete inputs satisfying the hypotheses of the theorems above -/
+section NonVacuity
+/-- `LenSpec` / `SqrtSpec`: the real square root, any `tmin` (used by every theorem with `hlen` / `hsqrt`) -/
+example (tmin : ℝ) : LenSpec (Gen.V3.length tmin Real.sqrt) := realLenSpec tmin
+example (tmin : ℝ) : LenSpec2 (Gen.V2.length tmin Real.sqrt) := realLenSpec2 tmin
+example (tmin : ℝ) : LenSpec4 (Gen.V4.length tmin Real.sqrt) := realLenSpec4 tmin
+example : SqrtSpec Real.sqrt := realSqrtSpec
+/-- `Line3_set`: two distinct points -/
+example : (⟨0, 0, 0⟩ : V3 ℝ) ≠ ⟨1, 2, 2⟩ := by intro h; simp only [V3.mk.injEq] at h; norm_num at h
+/-- unit directions (`hu`, `hu1`, `hu2`), not parallel (`Line3_closestPointToLine`, `LineAlgo_closestPoints`), and a
+perpendicular pair (`Line3_distanceToLine_partial`) -/
+example : dot (⟨3 / 5, 4 / 5, 0⟩ : V3 ℚ) ⟨3 / 5, 4 / 5, 0⟩ = 1 ∧ dot (⟨1, 0, 0⟩ : V3 ℚ) ⟨1, 0, 0⟩ = 1 ∧
+    dot (⟨1, 0, 0⟩ : V3 ℚ) ⟨3 / 5, 4 / 5, 0⟩ ^ 2 ≠ 1 ∧ dot (⟨1, 0, 0⟩ : V3 ℚ) ⟨0, 0, 1⟩ = 0 := by
+  simp only [dot]; norm_num
+/-- `|cplParam| < tmax`: the lines `(0,0,0)+s(1,0,0)` and `(0,0,1)+t(3/5,4/5,0)`, `tmax = 2` -/
+example : |cplParam (⟨⟨0, 0, 0⟩, ⟨1, 0, 0⟩⟩ : Line3 ℚ) ⟨⟨0, 0, 1⟩, ⟨3 / 5, 4 / 5, 0⟩⟩| < 2 := by
+  simp only [cplParam, dot, sub]; norm_num
+/-- `Plane3_setPoints`: three non-collinear points; `Plane3_setPointNormal/NormalDistance`: a non-zero normal -/
+example : cross (sub (⟨1, 0, 0⟩ : V3 ℚ) ⟨0, 0, 0⟩) (sub ⟨0, 1, 0⟩ ⟨0, 0, 0⟩) ≠ zero := by
+  simp only [cross, sub, zero, V3.mk.injEq]; norm_num
+example : (⟨0, 3, 4⟩ : V3 ℚ) ≠ zero := by simp only [zero, V3.mk.injEq]; norm_num
+/-- `Plane3_mulM44`: a plane with unit normal and a non-singular affine matrix (scale 2 in x, translation (5,6,7));
+orientation preserving (`Plane3_mulM44_sides`) -/
+example : dot (⟨0, 3 / 5, 4 / 5⟩ : V3 ℚ) ⟨0, 3 / 5, 4 / 5⟩ = 1 ∧
+    Affine (⟨2, 0, 0, 0, 0, 1, 0, 0, 0, 0, 1, 0, 5, 6, 7, 1⟩ : M44 ℚ) ∧
+    0 < det3 (⟨2, 0, 0, 0, 0, 1, 0, 0, 0, 0, 1, 0, 5, 6, 7, 1⟩ : M44 ℚ) := by
+  simp only [dot, Affine, det3]; norm_num
+/-- `Plane3_intersectT`: a line not parallel to the plane -/
+example : dot (⟨0, 0, 1⟩ : V3 ℚ) ⟨0, 3 / 5, 4 / 5⟩ ≠ 0 := by simp only [dot]; norm_num
+/-- `LineAlgo_intersect_complete`: the triangle (0,0,0),(1,0,0),(0,1,0) and the line from (1/4,1/4,1) straight down
+meet at `t = 1` in the point with barycentrics (1/2,1/4,1/4); `tmax = 2` -/
+example : triN (⟨0, 0, 0⟩ : V3 ℚ) ⟨1, 0, 0⟩ ⟨0, 1, 0⟩ ≠ zero ∧
+    dot (⟨0, 0, -1⟩ : V3 ℚ) (triN ⟨0, 0, 0⟩ ⟨1, 0, 0⟩ ⟨0, 1, 0⟩) ≠ 0 ∧
+    InTriangle (⟨0, 0, 0⟩ : V3 ℚ) ⟨1, 0, 0⟩ ⟨0, 1, 0⟩ (lineAt ⟨⟨1 / 4, 1 / 4, 1⟩, ⟨0, 0, -1⟩⟩ 1) ∧ |(1 : ℚ)| < 2 := by
+  refine ⟨?_, ?_, ⟨⟨1 / 2, 1 / 4, 1 / 4⟩, ?_⟩, ?_⟩
+  · simp only [triN, cross, sub, zero, V3.mk.injEq]; norm_num
+  · simp only [triN, cross, sub, dot]; norm_num
+  · simp only [baryPoint, add, smul, lineAt, V3.mk.injEq]; norm_num
+  · norm_num
+/-- `LineAlgo_rotatePoint_circle`: `sin² + cos² = 1` -/
+example : ((fun _ : ℚ => (3 : ℚ) / 5) 0) ^ 2 + ((fun _ : ℚ => (4 : ℚ) / 5) 0) ^ 2 = 1 := by norm_num
+/-- `Sphere3_circumscribe`: a point of a box -/
+example : InBox (⟨⟨0, 0, 0⟩, ⟨1, 2, 3⟩⟩ : Box3 ℚ) ⟨1 / 2, 1, 3⟩ := by simp only [InBox]; norm_num
+end NonVacuity
 
 end ImathVerif.C15
